@@ -176,11 +176,13 @@ CHECKS["C19"] = dict(
          "candidates coincides with the tau-quantiles among them, the percent laws and scale invariance for all samples of "
          "the bound and all tau = k/8, and emits cases with exact scores; the real functions are evaluated on the same dyadic "
          "values (exact float arithmetic) in shapes (n,), (n,1), (n,k), the argmin set over constant estimates is recomputed "
-         "with the real mean_quantile_score and compared with TLC's, inconsistent shapes must raise ValueError.",
+         "with the real mean_quantile_score and compared with TLC's, inconsistent shapes (n+1 values, and sizes that would "
+         "broadcast: k*n, (n,k), 2n against (n,1)) must raise ValueError; mape/bias on (n,) and (n,1) layouts, under negative "
+         "and per-sample signed common factors.",
     ref="DESIGN.md §5 C19",
     note="Trusted: TLC, Rat/ScoresProps. Samples <= 5 values from 0..4; candidates for the minimiser are the integers "
-         "0..4 (complete for a convex piecewise-linear function with kinks at sample points). mape/bias are exercised on "
-         "1-D arrays only.",
+         "0..4 (complete for a convex piecewise-linear function with kinks at sample points). mape/bias: equal layouts (n,)/(n,1) for both, mixed "
+         "layouts for mape only (bias does not flatten its arguments).",
     technique="TLA+ spec (ScoresProps over exact rationals) model-checked with TLC; TLC-generated cases replayed into "
               "typhon.retrieval.scores")
 
@@ -191,12 +193,15 @@ CHECKS["C14"] = dict(
          "dtype, negative axis, default spacing). AtmosCases.tla gives IWV in its hydrostatic and general form, layer "
          "heights of pressure2height and the CRH laws (1 for a saturated profile, linear in q) as exact rationals for "
          "stand-in constants; the real functions are evaluated on the same floats with typhon.constants / the saturation "
-         "function patched (canary-guarded), to 1e-12.",
+         "function patched (canary-guarded), to 1e-12; CRH for fields of rank 1-3 along every axis. IsaProps.tla transcribes "
+         "the tabulated standard atmosphere (piecewise linear in height, linearly continued beyond the table): exact "
+         "temperatures at 22 heights, both addressings at the 8 tabulated levels, pressure2height(p) = pressure2height(p, T_ISA).",
     ref="DESIGN.md §5 C14, §6",
     note="NOT decided by this technique (no exp/log in TLA+): convergence of the two IWV formulations, the isothermal "
-         "law z = (RT/g) ln(p0/p), standard-atmosphere interpolation. Trusted: TLC, Rat/TrapzProps/AtmosCases, the float "
+         "law z = (RT/g) ln(p0/p), standard-atmosphere interpolation in log-pressure between the tabulated levels. Trusted: TLC, "
+         "Rat/TrapzProps/AtmosCases/IsaProps (the ISA table is transcribed from the source), the float "
          "evaluation of small rationals.",
-    technique="TLA+ spec (TrapzProps/AtmosCases over integers and exact rationals) model-checked with TLC; TLC-generated "
+    technique="TLA+ spec (TrapzProps/AtmosCases/IsaProps over integers and exact rationals) model-checked with TLC; TLC-generated "
               "cases replayed into typhon.math.integrate_column and typhon.physics.atmosphere")
 
 CHECKS["C09"] = dict(
@@ -206,7 +211,8 @@ CHECKS["C09"] = dict(
          "two-step routes, monotonicity, 0->0, the blend's branch selection, bounds and continuity at both joints, and "
          "0 < lapse <= g/cp with equality at ws = 0; the printed exact values are compared (1e-12) with the real functions on "
          "scalars, arrays and 0-d arrays with Mw/Md, the thermodynamic constants and the Murphy-Koop functions replaced by "
-         "stand-ins (module-level names, canary-guarded); non-positive temperatures must raise ValueError.",
+         "stand-ins (module-level names, canary-guarded); non-positive temperatures must raise ValueError. The converter grid "
+         "includes the trace-gas value 1e-6 and converters / inverse pairs are compared RELATIVELY (1e-12).",
     ref="DESIGN.md §5 C09, §6",
     note="NOT decided (exp/log/tanh are outside TLA+): positivity, monotonicity and ordering of e_eq_water_mk / "
          "e_eq_ice_mk themselves and their 1e-6 agreement at the triple point.",
@@ -217,10 +223,15 @@ CHECKS["C08"] = dict(
          "Rayleigh-Jeans law in frequency and wavelength form with its brightness-temperature inversion and the four "
          "spectral-density converters (Jacobian f^2/c resp. c, grid reversal) over exact rationals with symbolic constants; "
          "TLC model-checks mutual inverses, the Jacobian relation and that converted grids are increasing again; the exact "
-         "values are compared (1e-12) with the real functions under patched typhon.constants for 1-d, 2-d and 3-d spectra.",
+         "values are compared (1e-12) with the real functions under patched typhon.constants for 1-d, 2-d and 3-d spectra; "
+         "inputs must come back unmodified. SnellProps.tla: on the rational points of the unit circle (sin, cos both rational) "
+         "and 11 rational refractive indices TLC checks Snell's law, total reflection only out of the denser medium, "
+         "|Rv|,|Rh| <= 1, |Rv| = |Rh| at normal incidence, Rv = 0 exactly at the Brewster incidences, complex n2 at normal "
+         "incidence; snell / fresnel are replayed with scalars, arrays straddling the critical angle, broadcast and theta arrays.",
     ref="DESIGN.md §5 C08, §6",
-    note="NOT decided (exp/log/sin/sqrt are outside TLA+): everything about planck*, radiance2planckTb, snell, fresnel.",
-    technique="TLA+ spec (EmUnitsProps over exact rationals) model-checked with TLC; TLC-generated values replayed into "
+    note="NOT decided (exp/log/sin/sqrt are outside TLA+): everything about planck*, radiance2planckTb; snell / fresnel at "
+         "angles whose sine and cosine are not both rational and for complex n2 at oblique incidence.",
+    technique="TLA+ spec (EmUnitsProps, SnellProps over exact rationals) model-checked with TLC; TLC-generated values replayed into "
               "typhon.physics.em with stand-in constants")
 
 CHECKS["C17"] = dict(
@@ -242,12 +253,14 @@ CHECKS["C18"] = dict(
          "observation, the selection (exact matches in the 'spike' regime S = 1e-6 D where all other weights underflow to 0; "
          "everything in the 'flat' regime S = 1e12 D), its mean, variance, x-sorted values and cumulative shares as exact "
          "rationals, without mentioning the database order; TLC checks the model-level laws and emits sampled databases "
-         "(ties, constant x, 1-2 channels, observation inside/outside); BMCI.predict / cdf / predict_quantiles are run for "
+         "(ties, constant x, 1-3 channels, observation inside/outside) plus databases placed on one chi-square shell; BMCI.predict / cdf / predict_quantiles are run for "
          "permutations of the database, diagonal and correlated D and x2_max in {-1, 0, 0.5, 50}: estimates must equal the "
          "prescribed statistics, be permutation invariant, be unchanged by x2_max, cdf non-decreasing ending at 1, quantiles "
-         "monotone within the database range, NaN (no exception) without hits.",
+         "monotone within the database range, NaN (no exception) without hits; the x2_max window must keep every entry whose "
+         "exact rational chi-square is within x2_max (covariances incl. eigenvalues << 1/2); when TLC finds the whole database "
+         "on one chi-square shell, predict() with S = D itself must give the plain mean and spread (equal weights).",
     ref="DESIGN.md §5 C18, §6",
-    note="NOT decided: anything depending on the numerical value of exp(-chi^2/2) for non-degenerate weights, incl. the "
+    note="NOT decided: anything depending on the numerical value of exp(-chi^2/2) for non-degenerate weights off a single shell, incl. the "
          "'change bounded by the left-out weight share' clause. x2_max = 0 is exercised with diagonal D only (for correlated D "
          "exact matches sit on the window boundary up to rounding).",
     technique="TLA+ spec (BmciProps over exact rationals) checked with TLC; TLC-generated databases replayed into "
